@@ -7,6 +7,9 @@
 //!   wait=<op>,<op>..  the caller's calls on the Child: wait | try (one try_wait) | poll (stdin closed,
 //!   try_wait until not None); default none.   bulk=1 (Command::args / envs)
 //!   feed=<text> (written to the Child's stdin pipe before waiting)
+//!   further ops in wait=: W (write payload=<N> pattern bytes to Child::stdin), C (drop Child::stdin),
+//!   RO / RE (read Child::stdout / stderr to end-of-file) -> MARK:io:<op>:<res>:<n>:<a>:<b>:<head hex>
+//!   respawn=same|<extra arg>: the same Command is spawned a second time (after Command::arg(extra))
 //! Everything is reported through markers (writes to descriptor -1) which the tracer logs together
 //! with the descriptor table of the marking task:
 //!   MARK:spawn:begin / MARK:returned:ok:<in>,<out>,<err> (descriptor numbers of the Child's pipes,
@@ -75,6 +78,9 @@ pub fn main() -> i32 {
     let mut pre: Vec<i32> = Vec::new();
     let mut ops: Vec<String> = Vec::new();
     let mut bulk = false;
+    let mut payload_n = 0usize;
+    let mut respawn = false;
+    let mut extra: Option<UnixString> = None;
     let mut feed: Option<String> = None;
     for a in tiny_std::env::args().skip(1) {
         let a = a.unwrap();
@@ -93,6 +99,13 @@ pub fn main() -> i32 {
             "pre" => pre.push(num(v)),
             "wait" => ops = v.split(',').filter(|x| !x.is_empty()).map(String::from).collect(),
             "bulk" => bulk = true,
+            "payload" => payload_n = num(v) as usize,
+            "respawn" => {
+                respawn = true;
+                if v != "same" {
+                    extra = Some(ustring(v));
+                }
+            }
             "feed" => feed = Some(String::from(v)),
             _ => return 2,
         }
@@ -148,62 +161,134 @@ pub fn main() -> i32 {
         }
     }
     let me = rusl::process::get_pid();
-    let mut m = String::with_capacity(128);
-    mark("MARK:spawn:begin");
-    let res = cmd.spawn();
-    match &res {
-        Ok(child) => {
-            let fd = |p: &Option<tiny_std::process::AnonPipe>| p.as_ref().map_or(-1, |p| p.borrow_fd().as_raw_fd().value());
-            let _ = write!(m, "MARK:returned:ok:{},{},{}", fd(&child.stdin), fd(&child.stdout), fd(&child.stderr));
+    let mut m = String::with_capacity(256);
+    let payload: Vec<u8> = (0..payload_n).map(|i| ((i * 7 + 13) % 251) as u8).collect();
+    let rounds = if respawn { 2 } else { 1 };
+    for round in 1..=rounds {
+        if round == 2 {
+            if let Some(x) = &extra {
+                cmd.arg(x);
+            }
         }
-        Err(e) => {
-            m.push_str("MARK:returned:err:");
-            err_code(e, &mut m);
-        }
-    }
-    mark(&m);
-    if rusl::process::get_pid() != me {
-        tiny_std::process::exit(97);
-    }
-    if let Ok(mut child) = res {
         m.clear();
-        if let (Some(f), Some(p)) = (&feed, child.stdin.as_mut()) {
-            use tiny_std::io::Write as _;
-            let _ = p.write(f.as_bytes());
+        mark("MARK:spawn:begin");
+        let res = cmd.spawn();
+        match &res {
+            Ok(child) => {
+                let fd = |p: &Option<tiny_std::process::AnonPipe>| p.as_ref().map_or(-1, |p| p.borrow_fd().as_raw_fd().value());
+                let _ = write!(m, "MARK:returned:ok:{},{},{}", fd(&child.stdin), fd(&child.stdout), fd(&child.stderr));
+            }
+            Err(e) => {
+                m.push_str("MARK:returned:err:");
+                err_code(e, &mut m);
+            }
         }
-        for op in ops.iter() {
-            let r: tiny_std::Result<Option<i32>> = match op.as_str() {
-                "wait" => child.wait().map(Some),
-                "try" => child.try_wait(),
-                _ => {
-                    // stdin pipe closed first, like `wait` does
-                    drop(child.stdin.take());
-                    loop {
-                        match child.try_wait() {
-                            Ok(None) => unsafe {
-                                let ts: [i64; 2] = [0, 2_000_000];
-                                sc::syscall!(NANOSLEEP, ts.as_ptr(), 0);
-                            },
-                            other => break other,
+        mark(&m);
+        if rusl::process::get_pid() != me {
+            tiny_std::process::exit(97);
+        }
+        if let Ok(mut child) = res {
+            if let (Some(f), Some(p)) = (&feed, child.stdin.as_mut()) {
+                use tiny_std::io::Write as _;
+                let _ = p.write(f.as_bytes());
+            }
+            for op in ops.iter() {
+                m.clear();
+                match op.as_str() {
+                    "W" => {
+                        use tiny_std::io::Write as _;
+                        let mut off = 0;
+                        let mut res = "ok";
+                        if let Some(p) = child.stdin.as_mut() {
+                            while off < payload.len() {
+                                match p.write(&payload[off..]) {
+                                    Ok(k) if k > 0 => off += k,
+                                    _ => {
+                                        res = "err";
+                                        break;
+                                    }
+                                }
+                            }
+                        } else {
+                            res = "nopipe";
+                        }
+                        let _ = write!(m, "MARK:io:W:{res}:{off}:0:0:");
+                        mark(&m);
+                        continue;
+                    }
+                    "C" => {
+                        drop(child.stdin.take());
+                        mark("MARK:io:C:ok:0:0:0:");
+                        continue;
+                    }
+                    "RO" | "RE" => {
+                        use tiny_std::io::Read as _;
+                        let pipe = if op == "RO" { &mut child.stdout } else { &mut child.stderr };
+                        if let Some(p) = pipe.as_mut() {
+                            let (mut n, mut a, mut b) = (0u64, 1u32, 0u32);
+                            let mut head: Vec<u8> = Vec::new();
+                            let mut buf = [0u8; 4096];
+                            let res = loop {
+                                match p.read(&mut buf) {
+                                    Ok(0) => break "eof",
+                                    Ok(k) => {
+                                        for &c in &buf[..k] {
+                                            a = (a + u32::from(c)) % 65521;
+                                            b = (b + a) % 65521;
+                                        }
+                                        if head.len() < 48 {
+                                            let take = k.min(48 - head.len());
+                                            head.extend_from_slice(&buf[..take]);
+                                        }
+                                        n += k as u64;
+                                    }
+                                    Err(_) => break "err",
+                                }
+                            };
+                            let _ = write!(m, "MARK:io:{op}:{res}:{n}:{a}:{b}:");
+                            for c in &head {
+                                let _ = write!(m, "{c:02x}");
+                            }
+                        } else {
+                            let _ = write!(m, "MARK:io:{op}:nopipe:0:0:0:");
+                        }
+                        mark(&m);
+                        continue;
+                    }
+                    _ => {}
+                }
+                let r: tiny_std::Result<Option<i32>> = match op.as_str() {
+                    "wait" => child.wait().map(Some),
+                    "try" => child.try_wait(),
+                    _ => {
+                        // stdin pipe closed first, like `wait` does
+                        drop(child.stdin.take());
+                        loop {
+                            match child.try_wait() {
+                                Ok(None) => unsafe {
+                                    let ts: [i64; 2] = [0, 2_000_000];
+                                    sc::syscall!(NANOSLEEP, ts.as_ptr(), 0);
+                                },
+                                other => break other,
+                            }
                         }
                     }
+                };
+                let _ = write!(m, "MARK:waited:{op}:");
+                match r {
+                    Ok(Some(st)) => {
+                        let _ = write!(m, "ok:{st}");
+                    }
+                    Ok(None) => m.push_str("none:0"),
+                    Err(e) => {
+                        m.push_str("err:");
+                        err_code(&e, &mut m);
+                    }
                 }
-            };
-            m.clear();
-            let _ = write!(m, "MARK:waited:{op}:");
-            match r {
-                Ok(Some(st)) => {
-                    let _ = write!(m, "ok:{st}");
-                }
-                Ok(None) => m.push_str("none:0"),
-                Err(e) => {
-                    m.push_str("err:");
-                    err_code(&e, &mut m);
-                }
+                mark(&m);
             }
-            mark(&m);
         }
+        mark("MARK:spawn:end");
     }
-    mark("MARK:spawn:end");
     0
 }
